@@ -28,7 +28,31 @@ checks={
  "C05":("All seven reductions (full and along every dim) executed symbolically for every shape in the bounds; extrema by bound-and-attained, Var/Std/mean by real-arithmetic identity.","3 C05"),
  "C06":("Indexing/reshaping/construction ops executed symbolically with shapes and index arguments as solver integers; every output element proved identical to the input variable selected by an independent index map.","3 C06"),
 }
-notes={}
+B=" Bounded model checking, not a proof: nothing is claimed outside the ranks / sizes / argument ranges / program lengths recorded in evidence.bounds and outside_bounds."
+R=" float64 is exact real arithmetic + definedness (division by zero, log<=0, 0^negative); rounding, overflow/underflow and NaN payloads are outside the claim; math.* are uninterpreted functions with ground lemmas."
+T=" Trusted: go/ssa lowering; the executor's semantics for the SSA instructions met (checked by replaying sampled path models natively: traces_validated_against_impl, validation_mismatches=0); z3 4.8.12 / 5.1.0 (sampled cross-check); the reference models in /verif/harness/overlay/zzh."
+notes={
+ "C01":"Programs of <=3 steps (4 over {Add,Mul}) over <=2 leaves of shape [2]; alphabet {Scale,Add,Sub,Mul,Concat+Slice,identity Broadcast}; per-op rules are C02's subject and compose with the op-agnostic walk. Work bound: instruction count at depth 2d vs d (d<=8) symbolically, depth-40 stack natively."+B+R+T,
+ "C02":"One application of each of the 33 ops, rank<=3 sizes<=3 (rank 4 sizes<=2; vectors to 6), operands assumed inside the differentiability domain (listed in evidence.assumptions)."+B+R+T,
+ "C03":"Rank<=3 sizes<=3, ranks 4-6 sizes<=2; Eq/Ne/Equals pairs identical or apart by >1e-200; the bit-level comparison kernels (signed zero, NaN) are not modelled."+B+R+T,
+ "C04":"Operand ranks 2..4 (5 with sizes<=2), sizes<=3 (4 for plain matrices)."+B+R+T,
+ "C05":"Rank<=3 sizes<=3, ranks 4-6 sizes<=2, vectors to 8; extrema by bound-and-attained, Std by r>=0 and r^2=Var. Numerical stability of the variance formula (cancellation) is a floating-point fact outside the real model."+B+R+T,
+ "C06":"Value-parametric: assertions are term identities, so they hold for every element value. Rank<=3 sizes<=3, rank 4 sizes<=2."+B+T,
+ "C07":"The unchanged tree violates this property (known finding bcast_backward_mean, KNOWN_FINDINGS.txt); each violated path is re-decided against a deviant oracle that computes exactly sum/expansion-factor, anything else is reported."+B+R+T,
+ "C08":"(a) one step from arbitrary operand states covers flag propagation for any history length; (b) histories of <=3 (4) steps against a reference state machine under the property's preconditions."+B+T,
+ "C09":"Preconditions per DESIGN Appendix A; integers in [-2,6], slices <=3, live tensors rank<=3 sizes<=3, ragged data depth<=4; validator layer additionally at full 64-bit width over bit-vectors (sizes in [1,2^40]). Hangs are only detected as an exhausted step budget. Foreign Tensor implementations are not exercised."+B+T,
+ "C10":"Decided on the executor's exact store log (every ssa.Store / copy / append into an object allocated before the call) plus observable-state comparison; one operation (or op -> BackPropagate -> Update) per program."+B+T,
+ "C11":"Inductive step from arbitrary weights; FC output and (except Relu) activation output are abstracted to fresh variables where no backward rule reads them (DESIGN 8.2); transcendental activations at batch size 1. B>1 deviates by the Broadcast mean (known finding, deviant oracle)."+B+R+T,
+ "C12":"B,C<=3 (vectors to 5); log is uninterpreted with its sign contract; 1-(1-1e-12) is exactly 1e-12 here (its float64 rounding is not modelled)."+B+R+T,
+ "C13":"Predictions in [0,1] apart from the two clip bounds by >1e-200, targets in [0,1]; prediction a leaf, q*r, or a recycled leaf."+B+R+T,
+ "C14":"exp is uninterpreted with exp>0: overflow/underflow of e^x is not modelled (candidates the solver cannot prove are replayed natively at magnitudes up to 700)."+B+R+T,
+ "C15":"Relu/LeakyRelu inputs exactly 0 or apart from 0 by >1e-200. Softmax deviates through the Broadcast mean (known finding, deviant oracle)."+B+R+T,
+ "C16":"B,F,O<=3; dW/dB deviate by the batch mean (known finding, deviant oracle); gonum's uniform sampler is a contract stub."+B+R+T,
+ "C17":"rank<=3 sizes<=3 (vectors to 6); learning rate any real."+B+R+T,
+ "C18":"Only the non-distributional half is decided by the solver (shape, tracking, one distinct fresh draw per element and call, exact parameter terms for fans 1..64). That gonum realises the distributions is its contract; moments are only sampled natively (6 sigma, 40000 draws) during replay/validation."+B+T,
+ "C19":"Counters are mathematical integers with 0<=correct<=total<2^40; labels may be NaN; float rounding inside Accumulate is not modelled."+B+T,
+ "C20":"NOT an exploration of schedules: a sequential write-footprint analysis (exact store log) over all explored paths plus the read-only argument of the Go memory model, stated as an assumption; gonum/x-exp locking is trusted. Reported shared writes are replayed in real goroutines under the race detector."+B+T,
+}
 na={}
 m={"version":1,
  "setup_cmd":"cd /verif/engine && GOFLAGS=-mod=mod GOPROXY=off GOSUMDB=off GOTOOLCHAIN=local go build -o /verif/bin/qsym . && /verif/bin/qsym selftest",
